@@ -65,7 +65,18 @@ def shards(tier, seed):
         out.append({"kind": "deep", "sub": i, "n": 25 if q else 300})
     for i in range(3 if q else 16):
         out.append({"kind": "hostile", "sub": i, "n": 500 if q else 8000})
+    for i in range(2 if q else 8):
+        out.append({"kind": "upgrade", "sub": i, "n": 14 if q else 60})
     return out
+
+
+def make_upgrade(i, beh, rng):
+    """An Upgrade request without a body that the handler declines by answering normally (an Upgrade request with a
+    body is the listed trigger F22 and only occurs in the hostile stratum)."""
+    proto = rng.choice([b"websocket", b"tcp", b"h2c", b"WebSocket"])
+    hs = [b"Host: h", b"X-B: " + beh.encode(), b"Connection: " + rng.choice([b"Upgrade", b"upgrade", b"keep-alive, Upgrade"]), b"Upgrade: " + proto]
+    rng.shuffle(hs)
+    return b"GET /r%d HTTP/1.1\r\n" % i + b"\r\n".join(hs) + b"\r\n\r\n"
 
 
 def make_request(i, beh, rng, kind=None, version=b"HTTP/1.1", close=False):
@@ -218,7 +229,10 @@ def run_case(case: Case, rec):
         loop.run(max_iters=400000, until=lambda: len(sr.client.received) >= d[1], time_limit=loop.time() + 50)
         if len(sr.client.received) >= d[1]:
             sr.client.close()
-    st = loop.run(max_iters=800000, time_limit=t0 + 60)
+    # a server that keeps producing output for a finite input is stopped (and reported) instead of being followed for ever
+    out_cap = 400000 * (len(case.behs) + 2) + 64 * len(S)
+    st = loop.run(max_iters=800000, time_limit=t0 + 60, until=lambda: len(sr.client.received) > out_cap)
+    storm = len(sr.client.received) > out_cap
     # ---------------- observe
     out = sr.out
     closed = sr.server_closed
@@ -234,6 +248,8 @@ def run_case(case: Case, rec):
     }
     del loop.captured[:]
     v = check(case, sr, out, obs, th, qcap, never, rec)
+    if storm:
+        v.insert(0, ("O2:unbounded-output-for-finite-input", f"the server had written {len(sr.client.received)} bytes for a {len(S)}-byte request stream of {len(case.behs)} requests and was still going"))
     for f in never:
         if not f.done():
             f.cancel()
@@ -438,6 +454,28 @@ def run_shard(spec, rec):
             report(case, v, obs, rec)
             if i % 97 == 0:
                 rec.sample({"kind": "random", "behaviours": behs, "seg": seg, "disconnect": disc, "stall": stall, "statuses-closed": [obs["closed"], obs["handled"][:6]]})
+    elif kind == "upgrade":
+        # declined upgrades inside pipelines: what follows a declined Upgrade request in the same read is buffered as the
+        # "upgrade tail" and re-parsed after the answer; every request still gets exactly one response, in order - also
+        # when a second declined upgrade arrives later on the same connection.  Every single cut + whole + byte.
+        for i in range(spec["n"]):
+            depth = rng.choice([2, 3, 4, 5])
+            ups = set(rng.sample(range(depth), rng.choice([1, 2, 2]) if depth > 2 else 1))
+            behs = [rng.choice(["ret", "ret", "ret", "read", "stream2", "sleep1"]) for _ in range(depth)]
+            parts = [make_upgrade(j, b, rng) if j in ups else make_request(j, b, rng, kind=rng.choice(["none", "none", "length"])) for j, b in enumerate(behs)]
+            S = b"".join(parts)
+            bounds = [sum(len(x) for x in parts[:k]) for k in range(1, depth)]
+            segs = ["whole", "byte"] + [("cuts", [c]) for c in bounds] + [("cuts", [c]) for c in range(1, len(S), 9)]
+            if len(bounds) > 1:
+                segs.append(("cuts", bounds))
+            for seg in segs:
+                for stall in (None, 1.0):
+                    case = Case(S, behs, seg, stall=stall, ctx="declined-upgrade")
+                    v, obs = run_case(case, rec)
+                    report(case, v, obs, rec)
+                    rec.count("declined-upgrade-cases")
+            if i % 5 == 0:
+                rec.sample({"kind": "upgrade", "behaviours": behs, "upgrade-positions": sorted(ups), "stream": S[:240].decode("latin1")})
     elif kind == "deep":
         for i in range(spec["n"]):
             depth = rng.choice([31, 32, 33, 40, 48, 64, 80])
